@@ -164,3 +164,56 @@ Definition mismatches (cs : list case_t) : list nat := find_idx mismatch cs.
 Definition violations (cs : list case_t) : list nat := find_idx violates cs.
 
 Definition model_dump (c : case_t) : list iout := model_trace true c.1 init (map fst c.2).
+
+(* ---- concurrent histories (validation only): is there a sequential order of the recorded
+   calls, consistent with their real-time order, that the model reproduces? ---- *)
+Inductive cop := COp (o : op) | CAuth (h : N).
+(* status code, transfer from/to as (subject, authority) — resources are not compared, see
+   runner/props/C05.py — and the Authorize answer (2 = not an Authorize call) *)
+Definition cres : Type := N * option (N * N) * option (N * N) * N.
+(* call stamp, return stamp, call, result *)
+Definition cev : Type := N * N * cop * cres.
+Definition conc_case_t : Type := bool * list cev.
+
+Definition erase (s : option cstate) : option (N * N) :=
+  match s with Some (sj, au, _) => Some (sj, au) | None => None end.
+
+Definition cstep (shared : bool) (s : ctl) (c : cop) : ctl * cres :=
+  match c with
+  | COp o =>
+      let '(s', ou) := step true shared s o in
+      (s', (st_code (out_st ou), erase (x_from (out_x ou)), erase (x_to (out_x ou)), 2))
+  | CAuth h =>
+      if existsb (N.eqb h) (c_live s)
+      then (s, (0, None, None, if fst (authorize shared s h) then 1 else 0))
+      else (s, (5, None, None, 2))
+  end.
+
+Definition ev_call (e : cev) : N := e.1.1.1.
+Definition ev_ret (e : cev) : N := e.1.1.2.
+Definition minimal (e : cev) (pend : list cev) : bool :=
+  forallb (fun e' => negb (ev_ret e' <? ev_call e)) pend.
+
+Fixpoint lin (fuel : nat) (shared : bool) (s : ctl) (pend : list cev) : bool :=
+  match fuel with
+  | O => false
+  | S f =>
+      match pend with
+      | [] => true
+      | _ =>
+          (fix try (pre post : list cev) : bool :=
+             match post with
+             | [] => false
+             | e :: post' =>
+                 if (if minimal e pend then
+                       let '(s', r) := cstep shared s e.1.2 in
+                       if bool_decide (r = e.2) then lin f shared s' (rev_append pre post')
+                       else false
+                     else false)
+                 then true else try (e :: pre) post'
+             end) [] pend
+      end
+  end.
+
+Definition conc_reject (c : conc_case_t) : bool := negb (lin (S (length c.2)) c.1 init c.2).
+Definition conc_rejects (cs : list conc_case_t) : list nat := find_idx conc_reject cs.
